@@ -76,6 +76,29 @@ class Ref:
             return d["levels"][v][0]
         return v
 
+    def basic_deps(self, f):
+        """transitive basic-factor dependencies of a within-trial derived factor; None if a complex factor is involved"""
+        out = set()
+        for a in self.derived[f]["args"]:
+            if a in self.basic:
+                out.add(a)
+            else:
+                if self.is_complex(a):
+                    return None
+                sub = self.basic_deps(a)
+                if sub is None:
+                    return None
+                out |= sub
+        return out
+
+    def derive_chain(self, f, tr):
+        """value of within-trial derived factor f for the single-trial assignment tr (dict name -> [value])"""
+        for a in self.derived[f]["args"]:
+            if a not in tr:
+                tr[a] = [self.derive_chain(a, tr)]
+        v = self.derive(f, tr, 0)
+        return v if isinstance(v, str) else None
+
     # ------------------------------------------------------------------ crossing arithmetic
     def excluded_levels(self, constraints):
         return {(c["factor"], c["level"]) for c in constraints if c["kind"] == "exclude"}
@@ -116,15 +139,29 @@ class Ref:
                 if any(all(ta.get(f) == l for f, l in want.items()) for ta in tas):
                     poss.append(c)
             return poss
+        direct = [c for c in combos if not any((f, l) in excluded for f, l in zip(crossing, c))]
+        # the well-trodden case (maintainers' acceptance tests, crossing_size() == 5 for the 3x2 Stroop with an excluded
+        # 'illegal' level): an excluded level of an UNcrossed within-trial derived factor all of whose basic dependencies
+        # are crossed removes the combinations that produce it - under every reading
+        benign = set()
+        for (ef, el) in excluded:
+            if ef in self.derived and ef not in crossing and not self.is_complex(ef) and ef in design:
+                deps = self.basic_deps(ef)
+                if deps is not None and deps <= set(crossing):
+                    for c in direct:
+                        tr = {g: [m] for g, m in zip(crossing, c)}
+                        if self.derive_chain(ef, tr) == el:
+                            benign.add(c)
+        direct_b = [c for c in direct if c not in benign]
         poss_a = possible(True)
-        poss_b = possible(False)
+        poss_b = [c for c in possible(False) if c not in benign]
         if poss_a != poss_b:
             self.amb("excluded-arg")
         # separate-per-level reading (each derived level judged on its own)
         poss_sep = []
         tas = self._trial_assignments(design, excluded, False)
         for c in combos:
-            if any((f, l) in excluded for f, l in zip(crossing, c)):
+            if any((f, l) in excluded for f, l in zip(crossing, c)) or c in benign:
                 continue
             ok = True
             for f, l in zip(crossing, c):
@@ -144,8 +181,7 @@ class Ref:
                 w *= self.level_weight[f][l]
             weight[c] = w
         removed = len(poss) != len(combos)
-        direct = [c for c in combos if not any((f, l) in excluded for f, l in zip(crossing, c))]
-        indirect = poss_a != direct or poss_b != direct or poss_sep != direct
+        indirect = poss_a != direct_b or poss_b != direct_b or poss_sep != direct_b
         p = max([self.start[f] for f in crossing], default=0)
         return {"factors": list(crossing), "poss": weight, "S": sum(weight.values()), "p": p, "removed": removed,
                 "removed_indirect": indirect}
